@@ -69,11 +69,12 @@ func (vc *VC) typedVersion(comp, term string) {
 	// references stored in the entry heap were allocated before the function started
 	if strings.HasSuffix(term, "__e0") {
 		vc.declare("next__e0", "Int")
+		// (only for objects that exist: cells at unallocated references are unconstrained)
 		switch ci.elemT.Underlying().(type) {
 		case *types.Pointer, *types.Map, *types.Chan:
-			rf = and(rf, "(< "+elem+" next__e0)")
+			rf = and(rf, "(=> (< r next__e0) (< "+elem+" next__e0))")
 		case *types.Slice:
-			rf = and(rf, "(< (s-ref "+elem+") next__e0)")
+			rf = and(rf, "(=> (< r next__e0) (< (s-ref "+elem+") next__e0))")
 		}
 	}
 	if rf == "true" {
